@@ -37,7 +37,8 @@ pub fn c_scan_p2<S: Src, const KC: usize, const MC: usize>(s: &mut S) {
     while t < 16 {
         let v = s.u8();
         s.assume(v < 3);
-        table[t] = v as usize;
+        // scores may exceed 32 bits (a hashed order): two of the three values live above 2^32
+        table[t] = if v == 0 { 7 } else { ((v as usize) << 32) | 7 };
         t += 1;
     }
     s.cover(true);
